@@ -8,6 +8,7 @@ CONSTANTS
   MaxSize = 65535
   ReaderStops = FALSE
   TrackUsed = FALSE
+  ConnEmptyEOFQuirk = TRUE
   MaxLen = 60
   MaxAdvG = 2
 INVARIANTS Dump
